@@ -62,6 +62,14 @@ def exit_scenarios(rng, n):
             op['consume'] = rng.randint(1, max(1, nn - 1))
             if rng.random() < .5:
                 op['abandon'] = 'close'
+            elif rng.random() < .6 and op['consume'] < nn - 1:
+                # a task the consumer never asked for fails in the background while the generator is suspended; the pool is left
+                # while the caller still holds the generator
+                op['fail'] = {'at': [rng.randrange(op['consume'] + 1, nn)], 'exc': 'ValueError'}
+                op['max_tasks_active'] = 2 * nn
+                op['chunk_size'] = 1
+                op['progress_bar'] = True
+                ops.append({'op': 'sleep', 'd': 0.5})
         elif cause == 'mixed_map':
             op['op'] = rng.choice(['imap', 'imap_unordered'])
             op['consume'] = 1
@@ -198,6 +206,10 @@ def run(chk):
         if o.get('alive_at_exit'):
             chk.violation('no_thread_or_worker_alive_after_exit', case, {'alive': o['alive_at_exit']}, 'no worker and no helper thread alive after the pool is left',
                           input_class='leak_' + sc['cause'])
+        if o.get('alive_at_exit_with_open_generator'):
+            chk.violation('no_thread_or_worker_alive_after_exit', case, {'alive': o['alive_at_exit_with_open_generator'], 'generator_still_referenced': True},
+                          'no worker and no helper thread alive after the pool is left (also while the caller still holds an abandoned generator)',
+                          input_class='leak_open_generator_' + sc['cause'])
         if o.get('procs_alive'):
             chk.violation('no_worker_process_alive_after_exit', case, {'alive': o['procs_alive']}, 'no worker process alive', input_class='proc_leak_' + sc['cause'])
         if o.get('sigint_handler_after') != o.get('sigint_handler_before'):
